@@ -118,18 +118,42 @@ def check_dim(ctx, cls, f):
         ctx.ob("R17-DIM", True, cls.file, qual, "dimension-generic objective", "accepts any dimension by design (loop over x.size)",
                f.lineno, nontrivial=False)
         return None
-    ok = False
+    # every use x[k] is dominated by the fact len(x) == d, and the other outcome of that test always raises ValueError
+    from .. import cfg as C
+    g = C.CFG(f)
+    uses = [n for n in ast.walk(f) if isinstance(n, ast.Subscript) and isinstance(n.value, ast.Name) and n.value.id == xname and
+            isinstance(n.ctx, ast.Load)]
+    other = [n for n in ast.walk(f) if isinstance(n, ast.Name) and n.id == xname and isinstance(n.ctx, ast.Load) and
+             not any(n is u.value for u in uses) and not (isinstance(ctx.model.up(n), ast.Call) and norm_src(ctx.model.up(n).func) == "len")]
     d = None
-    if body and isinstance(body[0], ast.If):
-        t = body[0].test
-        if isinstance(t, ast.Compare) and len(t.ops) == 1 and isinstance(t.ops[0], ast.NotEq) and \
-                norm_src(t.left) == "len(%s)" % xname and isinstance(t.comparators[0], ast.Constant):
-            d = t.comparators[0].value
-            r = [s for s in body[0].body if isinstance(s, ast.Raise)]
-            if r and r[0].exc is not None and norm_src(r[0].exc).startswith("ValueError"):
-                ok = True
-    ctx.ob("R17-DIM", ok, cls.file, qual, "if len(x) != d: raise ValueError as first statement",
-           "guard found with d=%s" % d if ok else "f does not start with a ValueError guard on len(%s)" % xname, f.lineno)
+    ok = bool(uses)
+    why = "f never reads a coordinate of %s" % xname
+    tests = set()
+    lx = "len(%s)" % xname
+    for u in uses + other:
+        fs = [(a, t, lab) for a, t, lab, e in C.facts_at(g, g.node_of(u)) if a[0] == "==" and lx in (a[1], a[2])]
+        if not fs:
+            ok, why = False, "the use '%s' (line %s) is not guarded by a test of len(%s)" % (norm_src(u), u.lineno, xname)
+            break
+        a, t, lab = fs[0]
+        val = a[2] if a[1] == lx else a[1]
+        if not val.isdigit() or (d is not None and int(val) != d):
+            ok, why = False, "inconsistent dimension guards (%s)" % (a,)
+            break
+        d = int(val)
+        tests.add((t, lab))
+    if ok:
+        for t, lab in tests:
+            # the complementary outcome must end in `raise ValueError` on every path
+            raises = [n for n in g.nodes if n.kind == "stmt" and isinstance(n.ast, ast.Raise) and n.ast.exc is not None and
+                      norm_src(n.ast.exc).startswith("ValueError")]
+            for s2 in g.succ_by_label(t, not lab):
+                if s2 not in raises and not g.must_pass(s2, set(raises), {g.exit}):
+                    ok, why = False, "a point of the wrong dimension is not rejected with ValueError on every path"
+        if ok:
+            why = "guard found with d=%s" % d
+    ctx.ob("R17-DIM", ok, cls.file, qual, "len(x) != d raises ValueError before any coordinate is read",
+           why if ok else why, f.lineno)
     if ok:
         idx = []
         for n in ast.walk(f):
@@ -138,6 +162,8 @@ def check_dim(ctx, cls, f):
         good = bool(idx) and set(idx) == set(range(d))
         ctx.ob("R17-DIM", good, cls.file, qual, "indices used are exactly 0..d-1",
                "indices %s with guard d=%s" % (sorted(set(idx)), d), f.lineno)
+    else:
+        d = None
     return d
 
 
